@@ -389,3 +389,128 @@ func showAssocKV(c col.CatalogLike[int, int]) string {
 	}
 	return s
 }
+
+// RunC09Reused: one sorter instance serves several arrays in turn (sort,
+// reverse, shuffle, and sorting the same array again after it was rearranged).
+// Every call must have its documented effect on its own array, and an array
+// handled earlier must stay exactly as that call left it: the sorter keeps
+// nothing of the caller's.
+func RunC09Reused(c *core.Ctx) {
+	r := c.Rng
+	type served struct {
+		arr  []Tag
+		snap []Tag
+		vals []int
+	}
+	descending := r.Chance(1, 3)
+	base := func(a, b Tag) age.Rank { return cmp3(a.Val, b.Val) }
+	if descending {
+		base = func(a, b Tag) age.Rank { return cmp3(b.Val, a.Val) }
+	}
+	sorter := age.Sorter[Tag]().MakeWithRanker(base)
+	var done []*served
+	var script []string
+	cs := map[string]any{"descending": descending}
+	lengths := []int{0, 1, 2, 3, 4, 5, 6, 7, 8, 9, 15, 16, 17, 18, 24, 31, 32, 33, 40, 64, 65, 100}
+	fresh := func() *served {
+		n := lengths[r.Intn(len(lengths))]
+		s := &served{}
+		for i := 0; i < n; i++ {
+			v := r.Intn(n + 2)
+			s.vals = append(s.vals, v)
+			s.arr = append(s.arr, Tag{v, i})
+		}
+		return s
+	}
+	isPerm := func(s *served) bool {
+		seen := make([]bool, len(s.vals))
+		if len(s.arr) != len(s.vals) {
+			return false
+		}
+		for _, t := range s.arr {
+			if t.ID < 0 || t.ID >= len(s.vals) || seen[t.ID] || s.vals[t.ID] != t.Val {
+				return false
+			}
+			seen[t.ID] = true
+		}
+		return true
+	}
+	steps := r.Range(2, 6)
+	for k := 0; k < steps; k++ {
+		var s *served
+		if len(done) > 0 && r.Chance(1, 3) {
+			s = done[r.Intn(len(done))] // an array the sorter has already handled
+		} else {
+			s = fresh()
+			done = append(done, s)
+		}
+		op := []string{"sort", "sort", "reverse", "shuffle"}[r.Intn(4)]
+		script = append(script, fmt.Sprintf("%s(n=%d)", op, len(s.arr)))
+		cs["script"] = script
+		before := append([]Tag{}, s.arr...)
+		var pmsg string
+		func() {
+			defer func() {
+				if e := recover(); e != nil {
+					pmsg = fmt.Sprint(e)
+				}
+			}()
+			switch op {
+			case "sort":
+				sorter.SortValues(s.arr)
+			case "reverse":
+				sorter.ReverseValues(s.arr)
+			default:
+				sorter.ShuffleValues(s.arr)
+			}
+		}()
+		if pmsg != "" {
+			c.Violation("sort.reused-sorter/panicked", op+" panicked on a sorter that had served other arrays: "+pmsg, cs)
+			return
+		}
+		if !isPerm(s) {
+			c.Violation("sort.reused-sorter/not-a-permutation", fmt.Sprintf("%s on a sorter that had served other arrays turned %v into %v", op, clipTags(before), clipTags(s.arr)), cs)
+			return
+		}
+		switch op {
+		case "sort":
+			for i := 0; i+1 < len(s.arr); i++ {
+				if base(s.arr[i], s.arr[i+1]) == age.GreaterRank {
+					c.Violation("sort.reused-sorter/not-ascending", fmt.Sprintf("result %v: position %d ranks Greater than its successor", clipTags(s.arr), i+1), cs)
+					return
+				}
+			}
+		case "reverse":
+			for i := range before {
+				if s.arr[i] != before[len(before)-1-i] {
+					c.Violation("sort.reused-sorter/reverse-not-exact", fmt.Sprintf("%v reversed is %v", clipTags(before), clipTags(s.arr)), cs)
+					return
+				}
+			}
+		}
+		s.snap = append(s.snap[:0], s.arr...)
+		for j, o := range done {
+			if o == s {
+				continue
+			}
+			for i := range o.snap {
+				if o.arr[i] != o.snap[i] {
+					c.Violation("sort.reused-sorter/earlier-array-altered", fmt.Sprintf("after %s of another array, array #%d (handled earlier by the same sorter) changed at position %d: was %v, is %v", op, j+1, i+1, clipTags(o.snap), clipTags(o.arr)), cs)
+					return
+				}
+			}
+		}
+		c.Cover("reused-sorter." + op)
+	}
+	c.Distinct(core.HashStr(fmt.Sprint(script, descending, done[0].vals)))
+	if c.WantSample("reused-sorter") {
+		c.Sample("reused-sorter", cs)
+	}
+}
+
+func clipTags(t []Tag) string {
+	if len(t) > 24 {
+		return fmt.Sprintf("%v… (n=%d)", t[:24], len(t))
+	}
+	return fmt.Sprint(t)
+}
